@@ -184,7 +184,7 @@ def run(tier, replay=None):
                 back = float(probs[cur])
                 fa = float(pio) * v[x]
                 fb = float(W(al) / n_perms(al)) * back
-                if max(fa, fb) > 1e-250 and abs(fa - fb) > 1e-8 * max(fa, fb):
+                if not (fa == fa and fb == fb) or (max(fa, fb) > 1e-250 and abs(fa - fb) > 1e-8 * max(fa, fb)):   # NaN flows fail too
                     chk.violation("MH move violates detailed balance w.r.t. the call-exact posterior",
                                   {**case, "allele": x, "pi*K_forward": fa, "pi*K_backward": fb}, "C02/mh/db")
                     break
